@@ -108,7 +108,7 @@ func (v VLA) analyzeVLAForMarshaling() (*vlaMarshalingContext, error) {
 		return nil, err
 	}
 
-	ctx.commonSLBM = commonSLBMValues(ctx.slMBs[:])
+	ctx.commonSLBM = commonSLBMValues(ctx.slMBs[:v.RTPStreamCount])
 
 	// RID, NS, sl_bm fields
 	if ctx.commonSLBM != 0 {
@@ -192,16 +192,9 @@ func (v VLA) Marshal() ([]byte, error) { // nolint: cyclop
 }
 
 func commonSLBMValues(slMBs []uint8) uint8 {
-	var common uint8
-	for i := 0; i < len(slMBs); i++ {
-		if slMBs[i] == 0 {
-			continue
-		}
-		if common == 0 {
-			common = slMBs[i]
-
-			continue
-		}
+	common := slMBs[0]
+	for i := 1; i < len(slMBs); i++ {
+		// a stream without active layers does not share a non-empty bitmask
 		if slMBs[i] != common {
 			return 0
 		}
